@@ -43,7 +43,8 @@ def impl_case(case):
             "dirs": case.get("dirs", []),
             "provider": case["provider"], "search_path": case.get("search_path"), "recursive": case.get("recursive", False),
             "patterns": case.get("patterns", []), "global_repo": case["global_repo"],
-            "builtins": ["".join("def %s; " % e for e in b) for b in case["builtins"]], "ops": case["ops"]}
+            "builtins": ["".join("def %s; " % e for e in b) for b in case["builtins"]], "ops": case["ops"],
+            "strs": [[render(v) for v in st] for st in case.get("strs", [])]}
 
 
 # ------------------------------------------------------------------ Coq encoding
@@ -64,12 +65,20 @@ def hash_text(s):
     return str(h)
 
 
+def str_stmts(case, expansions):
+    """what the model loading providers load for a model without a file: the registered GlobalRepo patterns (the
+    same for every model: taken from file 0); an ImportURI provider loads nothing (string models have no imports)"""
+    return expansions[0][0] if case["provider"].endswith("grepo") else []
+
+
 def coq_case(case, expansions, fn="run_case"):
     files = [c_file(f["versions"][0], expansions[i][0]) for i, f in enumerate(case["files"])]
     ops = []
     for o in case["ops"]:
         if o["op"] == "load":
             ops.append("OLoad %d" % o["file"])
+        elif o["op"] == "loadstr":
+            ops.append("OLoadStr %s" % c_file(case["strs"][o["str"]][o["version"]], str_stmts(case, expansions)))
         else:
             i, v = o["file"], o["version"]
             ops.append("OWrite %d %s" % (i, c_file(case["files"][i]["versions"][v], expansions[i][v])))
@@ -104,7 +113,7 @@ def canon(out):
 
 
 # ------------------------------------------------------------------ property oracles (on implementation outputs)
-TOK_RE = re.compile(r"^f(\d+)@(\d+)$")
+TOK_RE = re.compile(r"^(?:f(\d+)|(s))@(\d+)$")      # f<file>@<op> | s@<op> (model loaded from a string)
 
 
 def oracle(case, out):
@@ -123,9 +132,19 @@ def oracle(case, out):
         if tok.startswith("b"):
             return {"elems": case["builtins"][int(tok[1:])], "refs": []}
         m = TOK_RE.match(tok)
+        if m.group(2):
+            j, v = tok_ver[tok]
+            return case["strs"][j][v]
         return case["files"][int(m.group(1))]["versions"][tok_ver[tok]]
 
+    cur_str = [None]
+
     def stmts_of(i):
+        if not isinstance(i, int):      # a model loaded from a string (key aN or the current string main)
+            fv = cur_str[0]
+            if fv is None or (lazy and not fv["refs"]):
+                return []
+            return str_stmts(case, exp)
         fv = case["files"][i]["versions"][ver[i]]
         if lazy and not fv["refs"]:
             return []
@@ -135,7 +154,9 @@ def oracle(case, out):
         if o["op"] == "write":
             ver[o["file"]] = o["version"]
             continue
-        f = o["file"]
+        is_str = o["op"] == "loadstr"
+        f = "str" if is_str else o["file"]
+        cur_str[0] = case["strs"][o["str"]][o["version"]] if is_str else None
         res = r["res"]
         cached = dict(grepo_before) if glob else {}
         # every token mentioned anywhere
@@ -153,10 +174,14 @@ def oracle(case, out):
             if not m:
                 bad.append(("C17", "two distinct model objects for one file in one load (%s)" % t, k))
                 continue
-            if int(m.group(2)) in failed_ops:
-                bad.append(("C18", "model %s created by the failed load %s is still reachable" % (t, m.group(2)), k))
+            if int(m.group(3)) in failed_ops:
+                bad.append(("C18", "model %s created by the failed load %s is still reachable" % (t, m.group(3)), k))
             if t not in tok_ver:
-                tok_ver[t] = ver[int(m.group(1))]
+                if m.group(2):
+                    if is_str and int(m.group(3)) == k:
+                        tok_ver[t] = (o["str"], o["version"])
+                else:
+                    tok_ver[t] = ver[int(m.group(1))]
         if res.startswith("EXC"):
             bad.append(("C17", "unexpected exception " + res, k))
         # ---- C17: each file is read at most once per load
@@ -167,7 +192,7 @@ def oracle(case, out):
         if f in cached:
             # ---- C17: repeated load with a global repository returns the cached model, reads nothing
             if res != "ok" or r.get("main") != cached[f] or r["reads"] or r["grepo"] != grepo_before:
-                bad.append(("C17", "repeated load of cached file %d: res=%s main=%s cached=%s reads=%s" % (f, res, r.get("main"), cached[f], r["reads"]), k))
+                bad.append(("C17", "repeated load of cached file %s: res=%s main=%s cached=%s reads=%s" % (f, res, r.get("main"), cached[f], r["reads"]), k))
         elif res == "ok":
             # expected set of files read: closure of the main file through files that are not cached
             want, todo = set(), [f]
@@ -178,6 +203,7 @@ def oracle(case, out):
                 want.add(g)
                 for st in stmts_of(g):
                     todo.extend(st)
+            want.discard("str")
             if set(r["reads"]) != want:
                 bad.append(("C17", "files read %s, import closure (minus cached) %s" % (sorted(r["reads"]), sorted(want)), k))
         if res == "ok":
@@ -192,7 +218,7 @@ def oracle(case, out):
                 mt = TOK_RE.match(m["tok"])
                 if not mt:
                     continue
-                own_op = int(mt.group(2)) == k
+                own_op = int(mt.group(3)) == k
                 if m["file"] in allm and allm[m["file"]] != m["tok"]:
                     bad.append(("C17", "model %s is not the registered model of file %s" % (m["tok"], m["file"]), k))
                 for g, t in m["local"]:
@@ -201,12 +227,12 @@ def oracle(case, out):
                 for t in m["targets"]:
                     if t and not t[0].startswith("b"):
                         tm = TOK_RE.match(t[0])
-                        if tm and allm.get(int(tm.group(1))) != t[0] and t[0] != m["tok"]:
+                        if tm and t[0] != m["tok"] and (t[0] not in allm.values() or (tm.group(1) and allm.get(int(tm.group(1))) != t[0])):
                             bad.append(("C17", "reference target in %s is not in the single model of its file" % t[0], k))
                 if own_op:
                     # ---- C17: local models are the imports in order, lookup is own -> local -> builtin
                     order = []
-                    for st in stmts_of(m["file"]):
+                    for st in stmts_of(m["file"] if not mt.group(2) else "str"):
                         for g in st:
                             if g not in order:
                                 order.append(g)
@@ -234,15 +260,15 @@ def oracle(case, out):
             parts = res.split(":")
             kind = parts[1] if len(parts) > 1 else "?"
             why = None
-            if kind in ("syntax", "obj", "mp", "unresolved") and parts[2] != "?":
-                g = int(parts[2])
-                fv = case["files"][g]["versions"][ver[g]]
+            if kind in ("syntax", "obj", "mp", "unresolved") and (parts[2] != "?" or is_str):
+                g = "str" if parts[2] == "?" else int(parts[2])
+                fv = cur_str[0] if g == "str" else case["files"][g]["versions"][ver[g]]
                 if kind == "syntax" and not fv.get("syn"):
-                    why = "file %d has no syntax error" % g
+                    why = "file %s has no syntax error" % g
                 if kind == "obj" and not fv.get("obj"):
-                    why = "no object processor fails on file %d" % g
+                    why = "no object processor fails on file %s" % g
                 if kind == "mp" and not fv.get("mp"):
-                    why = "no model processor fails on file %d" % g
+                    why = "no model processor fails on file %s" % g
                 if kind == "unresolved":
                     visible = set(fv["elems"])
                     for st in stmts_of(g):
@@ -254,7 +280,7 @@ def oracle(case, out):
                     for b in case["builtins"]:
                         visible.update(b)
                     if all(x in visible for x in fv["refs"]):
-                        why = "every reference of file %d is resolvable" % g
+                        why = "every reference of file %s is resolvable" % g
             elif kind == "nofile":
                 if not any(st == [] for i in range(len(case["files"])) for st in exp[i][ver[i]]):
                     why = "every import statement finds a file"
@@ -419,7 +445,47 @@ def gen_case(r, n_files=None, fail=None, with_history=True):
         ops.append({"op": "load", "file": main})
         if r.chance(0.5):
             ops.append({"op": "load", "file": r.below(n)})
+    # main models loaded from a string (no file name): registered under invented names by the GlobalRepo providers
+    if r.chance(0.45 if grepo else 0.15):
+        strs = []
+        for _ in range(r.range(1, 2)):
+            vis = [e for k in (reach[0] if grepo and reach else []) for e in files[k]["versions"][0]["elems"]] + [e for b in case["builtins"] for e in b]
+            elems = r.sample(NAMES[:6], r.range(1, 2))
+            # (RREL '+m:' creates the model's repository per reference: a string main without references has none - not modelled)
+            v0 = {"imports": [], "elems": elems, "refs": [r.choice(elems + vis) for _ in range(r.range(1 if provider == "rrel" else 0, 2))]}
+            if fail and r.chance(0.6):
+                ph = r.choice(["syn", "obj", "mp", "unres"])
+                if ph == "unres":
+                    v0["refs"].append("q1" if "q1" not in allnames else "e5")
+                else:
+                    v0[ph] = True
+            v1 = {"imports": [], "elems": list(elems), "refs": [x for x in v0["refs"] if x in elems + vis]}
+            strs.append([v0, v1])
+        case["strs"] = strs
+        for j in range(len(strs)):
+            ops.insert(r.below(len(ops) + 1), {"op": "loadstr", "str": j, "version": 0})
+            if r.chance(0.7):
+                ops.append({"op": "loadstr", "str": j, "version": 1})
+        if r.chance(0.5):
+            ops.append({"op": "load", "file": main})
     case["ops"] = ops
+    return case
+
+
+def str_case(n, edges, provider, glob_repo, phase):
+    """A main model loaded from a string over the import graph of graph_case (GlobalRepo pattern *.model): an earlier
+    string model, the failing one, its repair, then a file."""
+    case = graph_case(n, edges, provider, glob_repo)
+    bad = {"imports": [], "elems": ["e4"], "refs": ["e4", "e0"]}
+    if phase == "unres":
+        bad["refs"] = bad["refs"] + ["q1"]
+    else:
+        bad[phase] = True
+    good = {"imports": [], "elems": ["e4"], "refs": ["e4", "e0"]}
+    earlier = {"imports": [], "elems": ["e3"], "refs": ["e0"]}
+    case["strs"] = [[bad, good], [earlier, earlier]]
+    case["ops"] = [{"op": "loadstr", "str": 1, "version": 0}, {"op": "loadstr", "str": 0, "version": 0},
+                   {"op": "loadstr", "str": 0, "version": 1}, {"op": "load", "file": 0}, {"op": "loadstr", "str": 1, "version": 0}]
     return case
 
 
@@ -529,7 +595,7 @@ def evaluate(chk, pid, cases, outs, vals, errs):
     for c, o, mv in zip(cases, outs, vals):
         ic = canon(o)
         nfiles = closure_size(c, o)
-        key = json.dumps([c["provider"], c["global_repo"], c["builtins"], [f["versions"] for f in c["files"]], c["ops"], c.get("search_path"), c.get("patterns")], sort_keys=True)
+        key = json.dumps([c["provider"], c["global_repo"], c["builtins"], [f["versions"] for f in c["files"]], c["ops"], c.get("search_path"), c.get("patterns"), c.get("strs")], sort_keys=True)
         chk.count(key, nontrivial=nfiles >= 2)
         chk.stat("provider:" + c["provider"])
         chk.stat("global_repo:%s" % c["global_repo"])
@@ -539,6 +605,8 @@ def evaluate(chk, pid, cases, outs, vals, errs):
         for op in o["ops"]:
             if op["res"] != "written":
                 chk.stat("load:" + ":".join(op["res"].split(":")[:2]))
+        if c.get("strs"):
+            chk.stat("with string-loaded main models")
         if mv is not None and mv != ic:
             disagreements.append({"case": c, "impl": ic, "model": mv})
         bad = oracle(c, o)
